@@ -50,6 +50,7 @@ type lockMethod struct {
 	acquires   bool                // takes the lock itself somewhere
 	accesses   []fieldAccess       // direct guarded accesses
 	calls      []selfCall          // calls to methods on the same receiver
+	foreign    []selfCall          // calls to methods of the same type on another instance reached through a field (parent)
 	stateAt    map[ast.Node][2]int // must/may lock state before node: 0 none 1 R 2 W
 	unreleased []token.Pos
 	needs      int  // for methods that do not lock: strongest access they (transitively) make without holding: 0 none,1 R,2 W
@@ -518,7 +519,9 @@ func analyseMethod(s *sharedType, m *lockMethod) {
 			return true // the immutable configuration object
 		}
 		if nt := namedOf(ft); nt == s.nt {
-			return true // another instance of the same type (parent cache): it locks itself
+			// another instance of the same type (parent cache): it must lock itself — recorded, judged in lock.held
+			m.foreign = append(m.foreign, selfCall{sel.Sel.Name, call})
+			return true
 		}
 		f := calleeFunc(info, call)
 		mut := calleeMutates(s.pk, f)
@@ -775,6 +778,23 @@ func ruleLockHeld(c *Ctx) {
 				c.ok(key, m.fd.Pos(), "%d guarded accesses, %d helper calls, all under the lock", len(m.accesses), len(m.calls))
 			} else {
 				c.bad(key, firstPos, "guarded state of %s touched without the required lock on some path: %s", s.name, strings.Join(unguarded, "; "))
+			}
+		}
+		// another instance's guarded state: this method's lock (if any) is the lock of ITS receiver only, so a helper
+		// that reads or writes guarded fields without locking must not be invoked on a different instance
+		for _, mn := range sortedKeys(s.methods) {
+			m := s.methods[mn]
+			for _, fc := range m.foreign {
+				cm := s.methods[fc.callee]
+				if cm == nil {
+					continue
+				}
+				key := s.name + "." + mn + "=>other." + fc.callee
+				if !cm.acquires && cm.needs > 0 {
+					c.bad(key, fc.node.Pos(), "%s calls the non-locking helper %s on another %s instance (%s): that instance's guarded fields are accessed while only this receiver's mutex can be held — a data race with any writer of the other instance", mn, fc.callee, s.name, types.ExprString(fc.node.Fun))
+				} else {
+					c.ok(key, fc.node.Pos(), "the other instance's method takes its own lock")
+				}
 			}
 		}
 		// unexported helpers called from package functions that are not methods (constructors) are exempt when the value is fresh;
